@@ -132,7 +132,38 @@ fn judge<T: Val>(cx: &mut Cx, input: &[u8]) {
     }
 }
 
+/// integers with multi-digit (SWAR) parsing switched on: totality, and the same results as digit-by-digit parsing
+fn judge_md<T: Val + PartialEq + lexical_core::FromLexicalWithOptions<Options = lexical_core::ParseIntegerOptions>>(cx: &mut Cx, input: &[u8]) {
+    const STD: u128 = lexical_core::format::STANDARD;
+    cx.n += 1;
+    let place = place_for(cx.n);
+    guard::set_crumb(&input[..input.len().min(400)]);
+    let md = lexical_core::ParseIntegerOptions::builder().no_multi_digit(false).build_unchecked();
+    let mc = parse_complete_opt::<T, STD>(&mut cx.arena, input, place, &md);
+    let mp = parse_partial_opt::<T, STD>(&mut cx.arena, input, place, &md);
+    let rc = parse_complete::<T>(&mut cx.arena, input, place);
+    let rp = parse_partial::<T>(&mut cx.arena, input, place);
+    *cx.counts.entry("evals.multi-digit").or_insert(0) += 1;
+    for (entry, r) in [("parse_with_options/multi-digit", &mc), ("parse_partial_with_options/multi-digit", &mp)] {
+        match r {
+            R::Panic(p) => viol(cx, "C10", "panic", T::NAME, input, format!("{entry}: {p}")),
+            R::Ok(_, n) if *n > input.len() => viol(cx, "C10", "count-beyond-input", T::NAME, input, format!("{entry}: n={n}")),
+            R::Err(e) if err_index(e) > input.len() as i64 => viol(cx, "C10", "index-beyond-input", T::NAME, input, format!("{entry}: {e:?}")),
+            _ => {},
+        }
+    }
+    if mc != rc || mp != rp {
+        viol(cx, "C04", "no_multi_digit-changes-result", T::NAME, input, format!("digit-by-digit: {} / {}  multi-digit: {} / {}", fmt(&rc), fmt(&rp), fmt(&mc), fmt(&mp)));
+    }
+}
+
 fn judge_all(cx: &mut Cx, input: &[u8]) {
+    judge_md::<u32>(cx, input);
+    judge_md::<i32>(cx, input);
+    judge_md::<u64>(cx, input);
+    judge_md::<i64>(cx, input);
+    judge_md::<u128>(cx, input);
+    judge_md::<i128>(cx, input);
     judge::<f64>(cx, input);
     judge::<f32>(cx, input);
     judge::<u8>(cx, input);
